@@ -36,6 +36,19 @@ def changeable_primitives(ctx, rule):
                 fail="ChangeableFn::replace does not store the new handler (%s): on_action / on_error / filterer replacements have no effect" % rc)
     fnw = _f(r"^watchexec::changeable::ChangeableFn::<T, U>::new$")
     ctx.require(pathx.desc(thir.peel(thir.root(fnw))) == "ChangeableFn{0: Changeable::new(Arc::new(f))}", rule, "changeablefn-new", "ChangeableFn::new wraps the given handler", fnw.loc(fnw.line))
+    # clones share the cell: Changeable is an Arc (cloned as such), and cloning a ChangeableFn clones that Arc rather than snapshotting the current fn
+    ad = facts.adts.get("watchexec::changeable::Changeable")
+    fty = ad["variants"][0]["fields"][0]["ty"] if ad and ad.get("variants") and ad["variants"][0]["fields"] else ""
+    ccl = [pathx.desc(thir.peel(thir.root(f))) for f in facts.fns_matching(r"^<watchexec::changeable::Changeable<T> as core::clone::Clone>::clone$")]
+    fcl = [pathx.desc(thir.peel(thir.root(f))) for f in facts.fns_matching(r"^<watchexec::changeable::ChangeableFn<T, U> as core::clone::Clone>::clone$")]
+    ok = fty.startswith("alloc::sync::Arc<") and (facts.derived("watchexec::changeable::Changeable", "Clone") or ccl == ["Changeable{0: Clone::clone(self.0)}"]) \
+        and (facts.derived("watchexec::changeable::ChangeableFn", "Clone") or fcl == ["ChangeableFn{0: Clone::clone(self.0)}"])
+    ctx.require(ok, rule, "changeable-clones-share", "a clone of a Changeable / ChangeableFn shares the cell with the original (replace through one is seen through the other)",
+                fnw.loc(fnw.line), detail="%s / %s / %s" % (fty, ccl, fcl),
+                fail="cloning a Changeable(Fn) no longer shares the cell (%s / %s): a handler replaced after the clone was taken is never seen by the holder of the clone" % (ccl, fcl))
+    cl = _f(r"^watchexec::changeable::ChangeableFn::<T, U>::call$")
+    dcl = pathx.desc(thir.peel(thir.root(cl)))
+    ctx.require(dcl == "Fn::call(Changeable::get(self.0), (data))", rule, "changeablefn-call-reads", "ChangeableFn::call reads the current fn at every call and passes its argument on", cl.loc(cl.line), detail=dcl)
 
 
 
